@@ -4,6 +4,7 @@ from ..ref_ws import SFrame, CLOSE, PING, TEXT, BINARY, CONT
 
 SRV_CLOSE = SFrame(CLOSE, ref_ws.close_payload(1000, b'srv')).encode()
 SRV_PING = SFrame(PING, b'sp').encode()
+SRV_CLOSE_EMPTY = SFrame(CLOSE, b'').encode()
 
 HARNESSES = {
     'K1': {'threads': [[('close', ())], [('send_text', 'hello')]]},
@@ -17,10 +18,13 @@ HARNESSES = {
     'K10': {'pre': [('close', ())], 'threads': [[('send_text', 'late')], [('send_binary', b'\x09')]], 'loop': 2,
             'steps': [SRV_CLOSE, W.Eof()]},
     'K11': {'pre': [('close', ())], 'threads': [[('send_text', 'late'), ('close', (3003, 'again'))]], 'loop': 2, 'steps': [SFrame(TEXT, b'x').encode() + SRV_CLOSE, W.Eof()]},
+    'K12': {'threads': [[('send_text', 'racing the echo of an empty Close')]], 'loop': 3, 'steps': [SRV_CLOSE_EMPTY, W.Eof()]},
+    'K13': {'threads': [[('close', ())], [('send_text', 'compressed hello hello hello')]], 'ext': thr.DEFLATE, 'compress': True},
+    'K14': {'threads': [[('close', (None,))], [('send_binary', b'\x01\x02')]]},
     'K9': {'threads': [[('send_text', 'pre'), ('close', (1001, 'x'))], [('send_binary', b'\xaa'), ('close', ())]]},
 }
-BOUNDS = {'quick': {'K1': 2, 'K2': 2, 'K3': 1, 'K4': 1, 'K5': 1, 'K6': 1, 'K7': 1, 'K8': 1, 'K9': 1, 'K10': 1, 'K11': 1},
-          'thorough': {'K1': 3, 'K2': 3, 'K3': 2, 'K4': 2, 'K5': 2, 'K6': 2, 'K7': 2, 'K8': 2, 'K9': 2, 'K10': 2, 'K11': 2}}
+BOUNDS = {'quick': {'K1': 2, 'K2': 2, 'K3': 1, 'K4': 1, 'K5': 1, 'K6': 1, 'K7': 1, 'K8': 1, 'K9': 1, 'K10': 1, 'K11': 1, 'K12': 1, 'K13': 1, 'K14': 1},
+          'thorough': {'K1': 3, 'K2': 3, 'K3': 2, 'K4': 2, 'K5': 2, 'K6': 2, 'K7': 2, 'K8': 2, 'K9': 2, 'K10': 2, 'K11': 2, 'K12': 2, 'K13': 2, 'K14': 2}}
 PARTS = 16
 CLOSURE = {'quick': ['K1'], 'thorough': ['K1', 'K2', 'K3', 'K4', 'K6', 'K7', 'K8', 'K9', 'K11']}      # harnesses searched over *all* interleavings (lv.sched_closure)
 
@@ -36,6 +40,10 @@ def judge(ex, hname):
     for tid, err in sc.errors.items():
         out.append(('thread-exception', 'thread %d died with %r' % (tid, err)))
     frames = [(f.opcode, f.payload) for f in ex.frames]
+    if HARNESSES[hname].get('compress'):
+        msgs, dprob = thr.decode_messages(ex, True)
+        frames = [(op, p if p is not None else b'<undecodable>') for op, p in msgs]
+        out.extend((k, m) for k, m in dprob if k == 'peer-cannot-inflate')
     for f in ex.frames:
         if f.problems:
             out.append(('invalid-frame', '%r' % f))
